@@ -316,7 +316,7 @@ def check(run):
     plans = []
     for k in range(nmain):
         r = np.random.default_rng(run.seed * 1000003 + k)
-        sysfile, _ = pool4.system(('sys_%d.gro' if k % 5 else 'sys.part%04d.eq.gro') % k, present, r, nmol=int(r.integers(4, 12)))   # input names with several dots too
+        sysfile, _ = pool4.system(('sys_%d.gro' if k % 5 else 'sys.part%04d.eq.gro') % k, present, r, nmol=(int(r.integers(4, 12)) if k % 7 != 3 else len(present)))   # input names with several dots too
         pool4.sysfile = sysfile
         auto = k % 2 == 0
         explicit = [str(s) for s in r.choice(present, int(r.integers(0 if auto else 1, 3)), replace=False)]
